@@ -175,6 +175,9 @@ def pumped_cases(sh):
         for f in PUMP_FILLERS:
             for n in PUMP_COPIES:
                 yield {"part": sh["part"], "tok": sh["tok"], "text": head + f * n}
+            if len(head) <= 30 and len(alpha) > 0 and (head == "" or head in alpha):
+                # one document beyond 64 KiB per single-fragment head (block-wise / size-switched code paths)
+                yield {"part": sh["part"], "tok": sh["tok"], "text": head + f * (66000 // len(f) + 1)}
 
 
 def opt_shards(tier):
